@@ -242,6 +242,7 @@ let run_k3_case (prog : program) (line : string) =
             (if st.in_choice then "true" else "false") (if st.esa then "true" else "false");
           pr ",\"decode\":%s" (match decode st.cstd.nodes with Some _ -> "true" | None -> "false");
           pr ",\"cert_no_assert_no_choice\":%s" (if prog_ok prog then "true" else "false");
+          pr ",\"cert_scoped\":%s" (if prog_scoped prog then "true" else "false");
           pr "}\n")
      | _ -> failwith "k3 header")
   | _ -> failwith "k3 line"
@@ -431,7 +432,7 @@ let run_kb_line (line : string) =
     | Some s ->
       Buffer.clear sb;
       sp_program (compile g s ci);
-      pr "{\"r\":\"ok\",\"errors\":%d,\"prog\":\"%s\",\"msgsets\":[" (List.length (List.filter (fun (c, _) -> match c with W007 | W006 -> false | _ -> true) s.s_diags) + List.length s.s_mixed) (Buffer.contents sb);
+      pr "{\"r\":\"ok\",\"scoped\":%s,\"errors\":%d,\"prog\":\"%s\",\"msgsets\":[" (if prog_scoped (compile g s ci) then "true" else "false") (List.length (List.filter (fun (c, _) -> match c with W007 | W006 -> false | _ -> true) s.s_diags) + List.length s.s_mixed) (Buffer.contents sb);
       List.iteri (fun i (id, ts) -> if i > 0 then pr ","; pr "[%d," (int_of_nat id); pr_natlist ts; pr "]") (all_msg_sets g s);
       pr "]}\n"
 
